@@ -140,7 +140,10 @@ func ReadPBFWithOptions(r io.Reader, emit EmitWithGoroutine, options ReadOptions
 	go func() {
 		readBlobErr = readBlobs(r, c, ctx)
 		for i := 0; i < cores; i++ {
-			c <- &blob{Type: blobTypeDone}
+			select {
+			case c <- &blob{Type: blobTypeDone}:
+			case <-ctx.Done():
+			}
 		}
 		wg.Done()
 	}()
